@@ -135,6 +135,17 @@ def run(ctx, escalated=False):
     m = 150 if quick else 4000
     for _ in range(m):
         cases.append(snapshot_case(ctx))
+    # the same through the real Conductor.monitor_study (what is on disk after each poll)
+    import condsim
+    import shutil
+    for k in range(60 if quick else 1500):
+        r = condsim.run(ctx, ctx.rng, k)
+        if r is None:
+            continue
+        cases.append(Case({"kind": "conductor", "spec": r["spec"], "polls": r["polls"], "returned": r["ret"]},
+                          [], [], r["mon"]["C18"][:3], r["nontrivial"]))
+        if k % 30 == 29:
+            shutil.rmtree(os.path.join(ctx.scratch, "cond"), ignore_errors=True)
     for c in cases:
         ctx.count("kind:" + c.data["kind"])
     diffs = compare(cases)
